@@ -3,6 +3,7 @@ package cty
 import (
 	"fmt"
 	"math"
+	"math/big"
 	"strings"
 
 	"github.com/zclconf/go-cty/cty/ctystrings"
@@ -547,8 +548,13 @@ func (b *RefinementBuilder) NewValue() (ret Value) {
 			// only be the same number as the bounds.
 			if rfn.maxInc && rfn.minInc {
 				if rfn.min != NilVal && rfn.max != NilVal {
-					eq := rfn.min.Equals(rfn.max)
-					if eq.IsKnown() && eq.True() {
+					// The bounds are compared exactly, as LessThan and
+					// GreaterThan do when they test a number against the
+					// range. (Equals treats two fractions with the same
+					// shortest decimal text as equal even when they are held
+					// at different precisions, and there are other numbers
+					// between such bounds.)
+					if rfn.min.v.(*big.Float).Cmp(rfn.max.v.(*big.Float)) == 0 {
 						return rfn.min
 					}
 				}
